@@ -7,11 +7,11 @@ _TB = [
     "SHA-256 and bech32 are inside the model (CwMt/Model/Sha256.lean, Bech32.lean, Address.lean): the driver recomputes every `bind*` declaration of a case "
     "(addr_make, classic and salted contract addresses, default checksums) and answers with its own value, so the values the implementation declares are checked, "
     "not trusted; only the wasm-legacy slice (custom Api and address generator) takes its declarations as given",
-    "JSON (de)serialisation of stored records is not modelled (the harness decodes the raw store with serde and requires every raw key to fall in a known namespace)",
+    "JSON text and raw keys of the bank and wasm records are modelled (CwMt/Model/Json.lean, Flat.lean) and compared byte for byte with the real root storage on every case (op rawdump); staking / distribution records are decoded by the harness with serde (every raw key must fall in a known namespace)",
     "value semantics for storage is justified by C06 (overlay = ordered map) and by the correspondence; Rust's borrow rules are assumed",
 ]
 _NOTE = ("Trusted: Lean kernel + propext/Classical.choice/Quot.sound; the hand-written engine model and the scripted-contract twin, tied to /repo only by "
-         "differential testing (generator-bounded); addresses/checksums recomputed by the model (SHA-256, bech32 modelled); JSON not modelled; fuel-indexed "
+         "differential testing (generator-bounded); addresses/checksums recomputed by the model (SHA-256, bech32 modelled); JSON text of bank/wasm records modelled and compared byte for byte (rawdump), staking records decoded with serde; fuel-indexed "
          "recursion with out-of-fuel excluded by hypothesis (fuel irrelevance is proved).")
 
 
